@@ -270,6 +270,32 @@ fn wf_space(len: usize, reduced: bool) -> Space {
     prog_space_over(name, g.count(), move |i| g.unrank(i))
 }
 
+/// Deep programs: no limit on pending operands. For every n in 1..=48 and operator: `$T0 <n operands> <n-1 operators> =`
+/// followed by the standard tail, and the left-leaning chain of the same length.
+fn deep_prog_space() -> Space {
+    const OPS: [&str; 3] = ["+", "-", "*"];
+    let radices = [48u64, 3, 2];
+    prog_space_over("programs-deep", product(&radices), move |i| {
+        let d = unrank(i, &radices);
+        let (n, op) = (d[0] as usize + 1, OPS[d[1] as usize]);
+        let mut v: Vec<&'static str> = vec!["$T0"];
+        if d[2] == 0 {
+            for k in 0..n {
+                v.push(["4", "$esp", ".cbLocals", "8"][k % 4]);
+            }
+            v.extend(std::iter::repeat(op).take(n - 1));
+        } else {
+            v.push("4");
+            for _ in 1..n {
+                v.push("8");
+                v.push(op);
+            }
+        }
+        v.extend(["=", "$eip", ".raSearch", "^", "=", "$esp", ".raSearch", "4", "+", "="]);
+        v
+    })
+}
+
 fn prog_space_over(name: &'static str, n: u64, gen: impl Fn(u64) -> Vec<&'static str> + Send + Sync + Clone + 'static) -> Space {
     let gen2 = gen.clone();
     let run = move |idx: u64, l: &mut Local| {
@@ -1000,6 +1026,7 @@ fn main() {
             prog_space(maxlen),
             wf_space(wf_a, false),
             wf_space(wf_b, true),
+            deep_prog_space(),
             fpo_space(ctx.tier.pick(SIZE_MENU_Q, SIZE_MENU_T), ctx.tier.pick(ESPS_Q, ESPS_T)),
             extreme_space(ctx.tier.pick(SIZE_MENU_Q, SIZE_MENU_T)),
             records_space(),
